@@ -208,7 +208,7 @@ func apiOp(r *rand.Rand, sc string, pk protoKind, sess erpc.Session, peers []erp
 				c.Reply()
 				c.CostTime()
 				if pd, ok := pending[c]; ok && kp != nil {
-					kp.add(snapshot(sc, pd.tag, !pk.strukt, c, pd.bptr, pd.sptr))
+					kp.add(snapshot(sc, pd.tag, true, c, pd.bptr, pd.sptr))
 				}
 			case <-time.After(2 * time.Second):
 			}
